@@ -3013,6 +3013,18 @@ class StateEngine(object):
                 in parallel. A value of zero means unbounded.
                 """
                 max_concurrency = state.get("MaxConcurrency", 0)
+                if not isinstance(max_concurrency, int) or max_concurrency < 0:
+                    """
+                    A definition stored without validation could hold any
+                    value. Used as a slice bound a negative one would launch
+                    only some of the items, and the Map state would then wait
+                    for ever for the results of the others.
+                    """
+                    raise ValueError(
+                        "Map state MaxConcurrency must be a non-negative integer, not {}".format(
+                            max_concurrency
+                        )
+                    )
                 if max_concurrency == 0:
                     max_concurrency = length
 
